@@ -540,6 +540,14 @@ def r5_determinism(ctx):
     r5_preprocessing_resets(ctx)
 
 
+def r6_training_set(ctx):
+    """sklearn raises on NaN/inf, and an exclusion criterion outside the
+    selected names changes the rating (shared with C15-R2/R3)"""
+    from .c15 import r2_stages, r3_name_selector
+    r2_stages(ctx)
+    r3_name_selector(ctx)
+
+
 RULES = [
     ("C09-R1", "fit-properties reads on the rating path are guarded "
      "(inter-procedural key-presence typestate)", r1_key_presence),
@@ -551,4 +559,7 @@ RULES = [
      r4_seeded),
     ("C09-R5", "no ambient inputs on the rating path; cache dropped with "
      "the data", r5_determinism),
+    ("C09-R6", "the rater's training set is sanitised (NaN rows, "
+     "imputation, both infinities) and features at rating time follow the "
+     "rater's names", r6_training_set),
 ]
